@@ -380,12 +380,19 @@ class Extractor:
             if not seg_m.strip():
                 continue
             cfg_otel = re.search(r'#\[cfg\(feature\s*=\s*"\s*"\)\]', seg_m) is not None or "opentelemetry" in seg_t and "#[cfg(feature" in seg_t
-            # strip attributes / docs
+            # strip attributes (possibly spanning several lines), doc comments and plain comments
             seg_clean = []
+            attr_depth = 0
             for lt, lm in zip(seg_t.split("\n"), seg_m.split("\n")):
-                if lt.strip().startswith("///") or lm.strip().startswith("#["):
+                if attr_depth > 0:
+                    attr_depth += lm.count("[") - lm.count("]")
                     continue
-                seg_clean.append(lt)
+                if lm.strip().startswith("#["):
+                    attr_depth = lm.count("[") - lm.count("]")
+                    continue
+                if lt.strip().startswith("///") or not lm.strip():
+                    continue   # doc comment, or a line that is blank once comments are masked
+                seg_clean.append(lm if "//" in lt and "//" not in lm else lt)
             ft = "\n".join(seg_clean).strip()
             fm = re.match(r"(?:pub(?:\s*\([^)]*\))?\s+)?(\w+)\s*:", ft)
             if not fm:
